@@ -31,7 +31,7 @@ def gen_package_json(rng):
     u = Uniq(rng)
     deps, used = [], set()
     for _ in range(1 + rng.below(6)):
-        sec = rng.choice(render.NPM_SECTIONS[:3] if rng.chance(5, 6) else ["overrides"])
+        sec = rng.choice(render.NPM_SECTIONS[:4] if rng.chance(5, 6) else ["overrides"])
         key = rng.choice(NAMES)
         if (sec, key) in used:
             continue
